@@ -1,6 +1,8 @@
 import Lean.Data.Json
 import ActsModel.Driver.Util
 import ActsModel.Spec.Lifecycle
+import ActsModel.Driver.Store
+import ActsModel.Driver.Msg
 open Lean Acts Acts.Driver
 
 /-- C02: evaluate the lifecycle monitor on a transition trace `[[key, old, new], …]` -/
@@ -15,6 +17,8 @@ def c02Monitor (req : Json) : Json :=
 def dispatch (req : Json) : Json :=
   match jstr req "cmd" with
   | "c02.monitor" => c02Monitor req
+  | "c10.run" => storeRun req
+  | "c09.run" => msgRun req
   | "ping" => Json.mkObj [("pong", Json.bool true)]
   | c => Json.mkObj [("error", Json.str s!"unknown cmd {c}")]
 
